@@ -13,6 +13,7 @@ def gen(rng: random.Random, tier: str):
         world = "pipeline" if k % 2 == 0 else "dataset"
         ops = [rng.choice(PIPE_OPS if world == "pipeline" else DATA_OPS) for _ in range(rng.randint(2, 8))]
         ops[0] = "modify" if world == "pipeline" else "builder_from"
+        if world == "pipeline" and k % 8 == 4: ops = ["modify", rng.choice(["connect", "clear"]), "build", "run"] + ops[1:3]          # directed: rewire a kept component, then build from that builder
         if world == "pipeline" and k % 8 == 2 and "rebuild_train" not in ops: ops.insert(rng.randint(1, len(ops)), "rebuild_train")          # directed: one builder, two builds
         if world == "pipeline" and "run" not in ops: ops.insert(rng.randint(1, len(ops)), "run")          # every pipeline history hands a candidate list to the components
         if world == "dataset" and "read" not in ops and rng.random() < 0.5: ops.insert(rng.randint(1, len(ops)), "read")
